@@ -146,6 +146,9 @@ func (c *c18) DumpCase(seed uint64, idx int) []Case {
 	if len(banned) > 0 && r.chance(400) {
 		cs.Opts.BanLayout = r.next() | 1
 	}
+	if len(banned) > 0 && r.chance(60) {
+		cs.Opts.UnknownBans = []int{[]int{30, 31, 99, 255, 1 << 20, -1, -7}[r.n(7)]}
+	}
 	cs.Extra = map[string]any{"disk_seed": r.n(1 << 30)}
 	if r.chance(200) && len(banned) == 1 {
 		// option values are reused: the ban option of this case was first used together with a
